@@ -162,6 +162,23 @@ def install_clock() -> Clock:
     return clk
 
 
+def install_cache_clock(now: float) -> Clock:
+    """Pin ``time.time`` inside vgi_rpc.http.server._app_stream (the call-state cache's clock) to a constant.
+
+    The cache TTL equals token_ttl (100 s in the C12 apps) and is measured on the real clock; a long run would
+    otherwise see its warm entries expire in real time.  time.monotonic etc. pass through untouched.
+    """
+    import vgi_rpc.http.server._app_stream as ap
+
+    if isinstance(ap.time, Clock):
+        clk = ap.time
+    else:
+        clk = Clock(ap.time)
+        ap.time = clk  # type: ignore[assignment]
+    clk.script = [float(now)]
+    return clk
+
+
 def make_server() -> RpcServer:
     return RpcServer(C12Protocol, C12Impl())
 
